@@ -523,3 +523,13 @@ func (v *Verifier) postedTo(fn *ssa.Function) string {
 	}
 	return ""
 }
+
+// inRepo2: like inRepo but also true for anonymous functions (whose Pkg may be
+// inherited from their parent).
+func (v *Verifier) inRepo2(fn *ssa.Function) bool {
+	root := fn
+	for root.Parent() != nil {
+		root = root.Parent()
+	}
+	return root.Pkg != nil && strings.HasPrefix(root.Pkg.Pkg.Path(), repoMod)
+}
